@@ -78,7 +78,10 @@ def build_plain(workdir, layout, gz, grid, salt, cs=4):
 def local_read(d, target, coords, key=None):
     from neuroglancer_scripts import accessor
     with contextlib.redirect_stdout(io.StringIO()):
-        acc = accessor.get_accessor_for_url(d)
+        try:
+            acc = accessor.get_accessor_for_url(d)
+        except Exception as e:      # recorded: the local reference itself cannot be opened
+            return {"st": "exc", "data": [], "cls": type(e).__name__}
         try:
             if target == "info":
                 b = acc.fetch_file("info")
